@@ -150,6 +150,9 @@ class _AdbIOManager(object):
         self._packet_store = _AdbPacketStore()
         self._transport = transport
 
+        # ``(arg0, arg1)`` pairs whose ``b'CLSE'`` packet was read by another stream's reader and was not kept by the packet store
+        self._orphaned_clse = set()
+
         self._store_lock = Lock()
         self._transport_lock = Lock()
 
@@ -162,6 +165,7 @@ class _AdbIOManager(object):
 
             with self._store_lock:
                 self._packet_store.clear_all()
+                self._orphaned_clse.clear()
 
     def connect(self, banner, rsa_keys, auth_timeout_s, auth_callback, adb_info):
         """Establish an ADB connection to the device.
@@ -217,6 +221,7 @@ class _AdbIOManager(object):
             with self._store_lock:
                 # We can release this lock because packets are only added to the store when the transport lock is held
                 self._packet_store.clear_all()
+                self._orphaned_clse.clear()
 
             # 1. Use the transport to establish a connection
             self._transport.connect(adb_info.transport_timeout_s)
@@ -323,6 +328,10 @@ class _AdbIOManager(object):
 
                 arg0_arg1 = self._packet_store.find(adb_info.remote_id, adb_info.local_id) if not allow_zeros else self._packet_store.find_allow_zeros(adb_info.remote_id, adb_info.local_id)
 
+            orphaned_clse = self._get_orphaned_clse(expected_cmds, adb_info, allow_zeros)
+            if orphaned_clse:
+                return orphaned_clse
+
         # Start the timer
         start = time.time()
 
@@ -339,6 +348,10 @@ class _AdbIOManager(object):
 
                         arg0_arg1 = self._packet_store.find(adb_info.remote_id, adb_info.local_id) if not allow_zeros else self._packet_store.find_allow_zeros(adb_info.remote_id, adb_info.local_id)
 
+                    orphaned_clse = self._get_orphaned_clse(expected_cmds, adb_info, allow_zeros)
+                    if orphaned_clse:
+                        return orphaned_clse
+
                 # Read from the device
                 cmd, arg0, arg1, data = self._read_packet_from_device(adb_info)
 
@@ -346,6 +359,10 @@ class _AdbIOManager(object):
                     # The packet is not a match -> put it in the store
                     with self._store_lock:
                         self._packet_store.put(arg0, arg1, cmd, data)
+
+                        # The store does not create an entry for a ``b'CLSE'`` packet; remember it so that its stream still gets closed
+                        if cmd == constants.CLSE and (arg0, arg1) not in self._packet_store:
+                            self._orphaned_clse.add((arg0, arg1))
 
                 else:
                     # The packet is a match for this `(adb_info.local_id, adb_info.remote_id)` pair
@@ -364,6 +381,35 @@ class _AdbIOManager(object):
 
         # Timeout
         raise exceptions.AdbTimeoutError("Never got one of the expected responses: {} (transport_timeout_s = {}, read_timeout_s = {})".format(expected_cmds, adb_info.transport_timeout_s, adb_info.read_timeout_s))
+
+    def _get_orphaned_clse(self, expected_cmds, adb_info, allow_zeros):
+        """Get the ``b'CLSE'`` packet of this stream if it was read (and not stored) while another stream was reading.
+
+        This must be called with ``self._store_lock`` held.
+
+        Parameters
+        ----------
+        expected_cmds : list[bytes]
+            The commands that the caller is waiting for
+        adb_info : _AdbTransactionInfo
+            Info and settings for this ADB transaction
+        allow_zeros : bool
+            Whether to allow the received ``arg0`` and ``arg1`` values to match with 0, in addition to ``adb_info.remote_id`` and ``adb_info.local_id``, respectively
+
+        Returns
+        -------
+        tuple, None
+            ``(b'CLSE', arg0, arg1, b'')`` if this stream was closed and the caller expects a ``b'CLSE'`` packet; otherwise, ``None``
+
+        """
+        for arg0, arg1 in self._orphaned_clse:
+            if adb_info.args_match(arg0, arg1, allow_zeros):
+                self._orphaned_clse.discard((arg0, arg1))
+                if constants.CLSE in expected_cmds:
+                    return constants.CLSE, arg0, arg1, b''
+                break
+
+        return None
 
     def send(self, msg, adb_info):
         """Send a message to the device.
